@@ -26,10 +26,10 @@ def _ggm_table(out, cfg, tag, workers=8, timeout=1500):
     return path, res
 
 
-def _ggm_trace(out, pid, seed, runs, steps):
+def _ggm_trace(out, pid, seed, runs, steps, order_offset=0):
     wd = workdir(pid + "-trace")
-    tr = os.path.join(wd, "ggm.ndjson")
-    rep = run_vh(["ggm-record", "--out", tr, "--seed", seed, "--runs", runs, "--steps", steps])
+    tr = os.path.join(wd, f"ggm{order_offset}.ndjson")
+    rep = run_vh(["ggm-record", "--out", tr, "--seed", seed, "--runs", runs, "--steps", steps, "--order-offset", order_offset])
     out.add_vh(rep, only={pid})
     res, rej = validate_trace("Trace_GGM", "Trace_GGM_c10.cfg" if pid == "C10" else "Trace_GGM_c11.cfg", tr, tag=pid + "-tv")
     out.states += res.states
@@ -43,7 +43,9 @@ def _ggm_trace(out, pid, seed, runs, steps):
             "detail": "recorded GGM history is not a behaviour of the specification; first unmatched event: "
                       + json.dumps(rej)[:1500],
             "replay": {"trace": tr, "rejected": rej},
-            "cmd": ["ggm-record", "--out", tr, "--seed", str(seed), "--runs", str(runs), "--steps", str(steps)]})
+            "validate": ["Trace_GGM", "Trace_GGM_c10.cfg" if pid == "C10" else "Trace_GGM_c11.cfg"],
+            "cmd": ["ggm-record", "--out", tr, "--seed", str(seed), "--runs", str(runs), "--steps", str(steps),
+                    "--order-offset", str(order_offset)]})
         out.traces -= min(out.traces, runs)   # recorded but not accepted
 
 
@@ -68,7 +70,8 @@ def c10(tier, seed):
         r = run_tlc("MC_GGM", "GGM_full4.cfg", workers=10, timeout=1800, tag="C10-full4")
         out.add_tlc(r, "MC_GGM/GGM_full4.cfg")
     out.add_vh(run_vh(["ggm-pairs", "--stride", 1 if thorough else 8, "--seed", seed]), only={"C10"})
-    _ggm_trace(out, "C10", seed, 8 if thorough else 3, 256 if thorough else 80)
+    _ggm_trace(out, "C10", seed, 8 if thorough else 2, 256 if thorough else 80)
+    _ggm_trace(out, "C10", seed + 7, 2 if thorough else 1, 256, order_offset=6)   # complete puncturing: all 256 inputs
     out.exhaustive = False
     return out
 
@@ -102,7 +105,8 @@ def c11(tier, seed):
         out.add_vh(run_vh(["ggm-replay", "--states", tbl, "--mode", "lattice", "--c11"], timeout=3000), only={"C11"})
     out.add_vh(run_vh(["ggm-export", "--seed", seed, "--runs", 16 if thorough else 6,
                        "--steps", 256 if thorough else 40]), only={"C11"})
-    _ggm_trace(out, "C11", seed + 1, 8 if thorough else 3, 256 if thorough else 80)
+    _ggm_trace(out, "C11", seed + 1, 8 if thorough else 2, 256 if thorough else 80)
+    _ggm_trace(out, "C11", seed + 8, 2 if thorough else 1, 256, order_offset=4)
     _protocol_stage(out, "C11", thorough)
     return out
 
@@ -119,7 +123,7 @@ def _trace_check(out, pid, module, cfg, tr, cmd, ntraces, label):
             "property": pid, "site": module, "input_class": "trace-rejected:" + evname,
             "detail": f"recorded {label} is not a behaviour of the specification; first unmatched event: "
                       + json.dumps(rej)[:1500],
-            "replay": {"trace": tr, "rejected": rej}, "cmd": [str(c) for c in cmd]})
+            "replay": {"trace": tr, "rejected": rej}, "validate": [module, cfg], "cmd": [str(c) for c in cmd]})
         out.traces -= min(out.traces, ntraces)   # recorded but not accepted
 
 
@@ -295,7 +299,7 @@ def _sharded_trace(out, pid, module, cfg, record_cmd_fn, shards, label):
                 "property": pid, "site": module, "input_class": f"trace-rejected:{evname}:{opname}",
                 "detail": f"recorded {label} disagrees with the specification evaluated by TLC; first unmatched event: "
                           + json.dumps(rej)[:1500],
-                "replay": {"trace": tr, "rejected": rej}, "cmd": [str(c) for c in cmd]})
+                "replay": {"trace": tr, "rejected": rej}, "validate": [module, cfg], "cmd": [str(c) for c in cmd]})
             out.traces -= min(out.traces, 1)
 
 
@@ -511,7 +515,7 @@ def c12(tier, seed):
     out.assumptions = [IDEAL, "H(x) is obtained as unblind(blind(x)) through the public API"]
     _oprf_cases(out, "C12-mc")
     out.add_vh(run_vh(["oprf-check", "--seed", seed, "--blindings", 64 if thorough else 8,
-                       "--inputs", 12 if thorough else 6], timeout=3000), only={"C12"})
+                       "--inputs", 80 if thorough else 45], timeout=3000), only={"C12"})
     return out
 
 
